@@ -147,7 +147,11 @@ func (rep *Report) finish(writeEvidence bool) int {
 					b, _ := json.MarshalIndent(map[string]interface{}{"harness": h.Name, "id": hit.ID, "inputs": modelStrings(hit.Model), "msg": hit.Msg, "decisions": hit.Decs, "replayed_by": "engine only (harness marked nonative)"}, "", " ")
 					os.WriteFile(f, b, 0644)
 				}
-				violations = append(violations, fmt.Sprintf("%s assert=%s %s", h.Name, hit.ID, hit.Msg))
+				where := ""
+				if !strings.HasSuffix(hit.Pos, ".json") && strings.Contains(hit.Pos, ":") {
+					where = " at " + hit.Pos
+				}
+				violations = append(violations, fmt.Sprintf("%s assert=%s %s%s", h.Name, hit.ID, hit.Msg, where))
 				if violFile == "" {
 					violFile = f
 				}
